@@ -347,3 +347,83 @@ def discipline_rule(ctx, rule, scope_rx, floor_sites):
     ctx.count("append_sites", n)
     ctx.floor(rule, "append sites (primitive + via workspace appenders) in scope", n, floor_sites)
     return n
+
+
+# ------------------------------------------------------------------------------------------------ writer scratch buffers
+WRITE_ALL_RX = re.compile(r"(std::io::Write::write_all|AsyncWriteExt::write_all)$")
+SHARED_VIEW_RX = re.compile(r"(\bDeref\b.*::deref|\bAsRef\b.*::as_ref|\bBorrow\b.*::borrow|Vec::<T, A>::as_slice|String::as_bytes|string::String::as_str)$")
+READONLY_RX = re.compile(r"(::len|::is_empty|::as_slice|::deref|::as_ref|::capacity|::iter|::get|::first|::last)$")
+
+
+def _shared_pointee(bd, op, depth=0):
+    """Identity of the storage a shared reference operand views (through reborrows and Deref/AsRef of an owned buffer)."""
+    if op[0] not in ("c", "m") or depth > 8:
+        return None
+    pl = op[1]
+    if not pl[1]:
+        ds = [x for x in bd.defs.get(pl[0], []) if x[0] in ("=", "call", "yield")]
+        if len(ds) == 1 and ds[0][0] == "call":
+            c = ds[0][2]
+            if SHARED_VIEW_RX.search(c.get("f") or "") and c["args"]:
+                return _shared_pointee(bd, c["args"][0], depth + 1)
+        if len(ds) == 1 and ds[0][0] == "=":
+            rv = ds[0][3]
+            if rv[0] == "ref":
+                src = rv[2]
+                if list(src[1]) == ["*"]:          # reborrow `&*x`
+                    return _shared_pointee(bd, ["c", [src[0], []]], depth + 1)
+                return bd.place_id([src[0], list(src[1])])
+            if rv[0] in ("use", "cast"):
+                o = rv[1] if rv[0] == "use" else rv[2]
+                if o[0] in ("c", "m"):
+                    return _shared_pointee(bd, o, depth + 1)
+    return bd.pointee(op)
+
+
+def scratch_buffer_rule(ctx, rule, scope_rx, floor):
+    """Writer scratch buffers: a field of `*self` that a function (a) hands by `&mut` to an encoder / inner writer and then (b)
+    hands, as the whole record, to `write_all` on the destination, must be reset on every path from the function's entry to
+    (a): a reset that only follows the write leaves the partial output of a rejected record in front of the next one."""
+    fb = ctx.fb
+    rx = re.compile(scope_rx)
+    memo = {}
+    n = 0
+    for f in sorted(fb.fns.values(), key=lambda f: f.key):
+        lf = logical(fb, f)
+        if not f.blocks or not rx.search(lf.key):
+            continue
+        bd = None
+        for bi, c in f.calls():
+            if not WRITE_ALL_RX.search(c.get("f") or "") or len(c["args"]) < 2:
+                continue
+            if bd is None:
+                bd = Body(fb, f)
+            ident = _shared_pointee(bd, c["args"][1])
+            if ident is None or ident[0] != ("p", 1) or not any(isinstance(p, tuple) and p[0] == "f" for p in ident[1]):
+                continue
+            producers = []
+            for bj, c2 in f.calls():
+                fk2 = c2.get("f") or ""
+                if bj == bi or KILL_RX.search(fk2) or READONLY_RX.search(fk2) or WRITE_ALL_RX.search(fk2):
+                    continue
+                for a in c2["args"]:
+                    if a[0] in ("c", "m") and not a[1][1] and f.locals[a[1][0]].startswith("&mut ") and bd.pointee(a) == ident:
+                        producers.append((bj, fk2))
+            if not producers:
+                continue
+            n += 1
+            ctx.saw_fn(f)
+            kb = kill_blocks(fb, bd, ident, memo)
+            open_ = C.reachable(f, 0, removed=kb) if 0 not in kb else set()
+            bad = [(bj, fk2) for bj, fk2 in producers if bj in open_]
+            buf = fmt_ident(f, ident)
+            if bad:
+                ctx.violation(rule, "%s/scratch-not-reset-before-fill/%s" % (rule, lf.key),
+                              "%s fills its scratch buffer %s through %s and then writes the whole buffer to the destination, but some path "
+                              "from the entry reaches the fill without a clear: whatever an earlier call left there (the partial output of "
+                              "a rejected record) is written in front of this record" % (lf.key, buf, bad[0][1].split("::")[-1]), f.loc(bad[0][0]))
+            else:
+                ctx.ok(rule, "%s clears %s before %s fills it" % (lf.key, buf, producers[0][1].split("::")[-1]),
+                       "every entry path to the fill passes a reset; the buffer written is exactly this record", f.loc(bi))
+    ctx.floor(rule, "writer functions that fill a scratch field and write it out", n, floor)
+    return n
